@@ -248,6 +248,44 @@ def entry_points(ctx, cirq, mods, case):
         dsim = cirq.DensityMatrixSimulator(dtype=np.complex128, split_untangled_states=rng.random() < 0.5)
         r = dsim.simulate(cc, qubit_order=ordered(order), initial_state=k)
         out.append(('DensityMatrixSimulator.simulate', order, basis_vec(dim, k), np.asarray(r.final_density_matrix), 'rho', 1e-6))
+    # 6. cirq.final_density_matrix (its own option handling: noise=None, ignore_measurement_results)
+    if dim <= 32 and rng.random() < 0.5:
+        order = order_perm(rng, n)
+        kind = rng.choice(['int', 'vec'])
+        ini, full = init_for(order, kind)
+        rho = cirq.final_density_matrix(c, initial_state=ini, qubit_order=ordered(order), dtype=np.complex128)
+        out.append(('cirq.final_density_matrix', order, full, np.asarray(rho), 'rho', 1e-6))
+    # 7. compute_amplitudes: every amplitude of the run from |0..0>, asked in a shuffled order of bitstrings
+    if all(d == 2 for d in case.dims) and dim <= 64 and rng.random() < 0.5:
+        order = order_perm(rng, n)
+        bs = list(range(dim))
+        rng.shuffle(bs)
+        amps = cirq.Simulator(dtype=np.complex128).compute_amplitudes(c, bs, qubit_order=ordered(order))
+        v = np.zeros(dim, dtype=np.complex128)
+        for b, a in zip(bs, amps):
+            v[b] = a
+        out.append(('Simulator.compute_amplitudes', order, basis_vec(dim, 0), v, 'vec', TOL128))
+    # 8. the unitary protocol on the circuit and on its frozen form (default qubit order = sorted qubits)
+    if dim <= 16 and all(cirq.has_unitary(op) for op in c.all_operations()) and len(c.all_qubits()) == n and rng.random() < 0.5:
+        order = sorted(range(n), key=lambda w: qs[w])
+        u = cirq.unitary(c.freeze() if rng.random() < 0.5 else c)
+        out.append(('cirq.unitary(circuit)', order, None, np.asarray(u), 'unitary', TOL128))
+    # 9. simulate started from a simulation-state object, and act_on of the operations on such an object one by one
+    if rng.random() < 0.5:
+        order = order_perm(rng, n)
+        v0 = random_state(rng, dim)
+        st = cirq.StateVectorSimulationState(initial_state=v0.reshape(dims_of(order) or (1,)) if n else v0, qubits=ordered(order), dtype=np.complex128)
+        if rng.random() < 0.5:
+            r = cirq.Simulator(dtype=np.complex128).simulate(c, qubit_order=ordered(order), initial_state=st)
+            out.append(('Simulator.simulate[state object]', order, v0, np.asarray(r.final_state_vector), 'vec', TOL128))
+        else:
+            for op in c.all_operations():
+                cirq.act_on(op, st)
+            vec = np.asarray(st.target_tensor).reshape(-1)
+            # act_on may have permuted the axes: read through the state's own qubit order
+            perm = [st.qubits.index(q) for q in ordered(order)]
+            vec = np.asarray(st.target_tensor).transpose(perm).reshape(-1) if n else vec
+            out.append(('cirq.act_on[state vector]', order, v0, vec, 'vec', TOL128))
     return out
 
 
